@@ -6,6 +6,7 @@
 -/
 import SchedVerif.Lemmas.Inv
 import SchedVerif.Lemmas.AsyncBudget
+import SchedVerif.Lemmas.AsyncAtt
 namespace SV
 
 /-- state reached by a history from a fresh scheduler -/
@@ -141,6 +142,15 @@ theorem C06.aio_live_has_attempts (tz : Option Int) (t0 : Int) (fuel : Nat) (ops
     (ht : (arun fuel { tz := tz, now := t0 } ops).task? k = some t) (hl : isLive t.phase = true) :
     t.job.hasAttempts = true :=
   (BudInv.arun fuel ops _ (BudInv.init tz t0)).live k t ht (by simp) hl
+
+/-- **asyncio: the attempts counter always equals the number of invocations that have ended** (normally
+    or by raising; a run cancelled by a deletion is not booked) - in every state reachable by scheduling,
+    deletions from outside and from coroutines, scripted coroutines and passage of virtual time
+    (invariant `AttInv`, `Lemmas/AsyncAtt.lean`) -/
+theorem C06.aio_attempts_count_completed_runs (tz : Option Int) (t0 : Int) (fuel : Nat) (ops : List AOp) (k : Nat) (t : ATask)
+    (ht : (arun fuel { tz := tz, now := t0 } ops).task? k = some t) :
+    t.job.attempts = endCount k (arun fuel { tz := tz, now := t0 } ops).log :=
+  (AttInv.arun fuel ops _ (AttInv.init tz t0)).att k t ht
 
 /-- … and the supervisor of an exhausted job retires it at its loop head: unregistered, finished -/
 theorem C06.aio_retires_when_exhausted (s : AState) (k : Nat) (t : ATask) (ht : s.task? k = some t)
